@@ -247,10 +247,10 @@ func S3(rc *RC) {
 			rc.S.Undec("S3", "tensor.CheckSlice", pos, "too many paths")
 		} else {
 			goals := map[string]*ir.BExpr{
-				"start <= end":                     ir.ParseBool("($s.End() >= $s.Start())"),
-				"start >= 0":                       ir.ParseBool("($s.Start() >= 0)"),
+				"start <= end":                      ir.ParseBool("($s.End() >= $s.Start())"),
+				"start >= 0":                        ir.ParseBool("($s.Start() >= 0)"),
 				"not (step == 0 and end-start > 1)": ir.BNot(ir.BAnd(ir.ParseBool("($s.Step() == 0)"), ir.ParseBool("(($s.End() - $s.Start()) > 1)"))),
-				"start < size":                     ir.BNot(ir.ParseBool("($s.Start() >= $size)")),
+				"start < size":                      ir.BNot(ir.ParseBool("($s.Start() >= $size)")),
 			}
 			var bad []string
 			n := 0
